@@ -465,7 +465,9 @@ fn run_schedule_arrivals(prog: &Value, schedule: &[usize], path: &str, pinout: O
         let pick = if script_pos < script.len() { script[script_pos].0 }
                    else if pos < schedule.len() && runnable.contains(&schedule[pos]) { schedule[pos] } else { default };
         let mut opts = vec![pick];
-        opts.extend(runnable.iter().copied().filter(|r| *r != pick));
+        // (a plain loop: the iterator-adapter form of this line drew a stack-use-after-scope report from the
+        // AddressSanitizer build inside std's Vec::extend - instrumentation of iterator temporaries, not a memory error)
+        for r in &runnable { if *r != pick { opts.push(*r); } }
         choices.push(opts);
         parked_at.push(match prev { Some(p) if alive[p] => last_point[p], _ => "" });
         pos += 1;
@@ -576,6 +578,7 @@ pub fn main(args: &[String]) -> i32 {
         "storm" => storm_main(&o),
         "limitstorm" => limitstorm_main(&o),
         "scanstorm" => scanstorm_main(&o),
+        "readstorm" => readstorm_main(&o),
         _ => free_main(&o),
     }
 }
@@ -887,6 +890,68 @@ fn limitstorm_main(o: &Opts) -> i32 {
     for e in &ev { writeln!(out, "{}", e).unwrap(); }
     out.flush().unwrap();
     println!("{}", json!({"rounds": 1, "events": ev.len(), "admitted": admitted.load(Ordering::SeqCst), "refused_growers": refused.load(Ordering::SeqCst), "peak": peak.load(Ordering::SeqCst), "lim": lim}));
+    0
+}
+
+/// C20 (AddressSanitizer build): readers spinning on a few hot keys of a PERSISTENT store (get, get_bytes, get_size,
+/// range_query, contains) while a writer keeps replacing them and calling flush(): every read races with the flush
+/// worker offloading the very generation it reads (value released from memory, sector published).  Every value is one
+/// byte repeated: a read must return a uniform value of a length that was written.  Unrecorded; result line only.
+fn readstorm_main(o: &Opts) -> i32 {
+    use std::sync::atomic::{AtomicBool, AtomicU64, Ordering};
+    let millis: u64 = o.num("millis", 2000);
+    let nreaders: usize = o.num("readers", 6);
+    let nkeys: usize = o.num("keys", 2);
+    crate::util::watchdog::start(o.num("watchdog", 60));
+    let path = format!("{}/readstorm_{}.feox", o.get("dir").unwrap_or("/dev/shm"), std::process::id());
+    let _ = std::fs::remove_file(&path);
+    let store = Arc::new(FeoxStore::builder().device_path(path.clone()).file_size(16 * 1024 * 1024)
+        .enable_caching(o.num("cache", 0u32) == 1).build().expect("build store"));
+    let keys: Vec<Vec<u8>> = (0..nkeys).map(|i| format!("hot{i}").into_bytes()).collect();
+    for k in &keys { store.insert(k, &vec![b'a'; 600]).expect("insert"); }
+    let stop = Arc::new(AtomicBool::new(false));
+    let (reads, torn) = (Arc::new(AtomicU64::new(0)), Arc::new(AtomicU64::new(0)));
+    let mut hs = Vec::new();
+    for r in 0..nreaders {
+        let (st, stop2, keys2, reads2, torn2) = (store.clone(), stop.clone(), keys.clone(), reads.clone(), torn.clone());
+        hs.push(std::thread::spawn(move || {
+            let mut n = 0usize;
+            while !stop2.load(Ordering::Relaxed) {
+                let k = &keys2[n % keys2.len()];
+                n += 1;
+                let v: Option<Vec<u8>> = match (r + n) % 5 {
+                    0 => st.get_bytes(k).ok().map(|b| b.to_vec()),
+                    1 => st.range_query(b"hot", b"hou", 4).ok().and_then(|items| items.into_iter().next().map(|x| x.1)),
+                    2 => { let _ = st.get_size(k); let _ = st.contains_key(k); None }
+                    _ => st.get(k).ok(),
+                };
+                if let Some(v) = v {
+                    reads2.fetch_add(1, Ordering::Relaxed);
+                    if v.is_empty() || v.iter().any(|b| *b != v[0]) || ![600usize, 900, 5000].contains(&v.len()) {
+                        torn2.fetch_add(1, Ordering::Relaxed);
+                    }
+                }
+            }
+        }));
+    }
+    let t0 = std::time::Instant::now();
+    let mut rounds = 0u64;
+    while t0.elapsed() < Duration::from_millis(millis) {
+        for (i, k) in keys.iter().enumerate() {
+            let b = b'a' + ((rounds as usize + i) % 26) as u8;
+            let _ = store.insert(k, &vec![b; [600usize, 900, 5000][(rounds as usize + i) % 3]]);
+        }
+        let _ = store.flush();
+        rounds += 1;
+        crate::util::watchdog::beat("readstorm");
+    }
+    stop.store(true, Ordering::SeqCst);
+    for h in hs { let _ = h.join(); }
+    let (r, t) = (reads.load(Ordering::SeqCst), torn.load(Ordering::SeqCst));
+    if let Ok(s) = Arc::try_unwrap(store) { std::mem::forget(s); }
+    let _ = std::fs::remove_file(&path);
+    println!("{}", json!({"rounds": rounds, "reads": r, "foreign": t}));
+    if t > 0 { return 4; }
     0
 }
 
